@@ -137,7 +137,31 @@ def m_map_remove(I, s, fr, c, a, d, de, rb):
     m.d['f'] = lambda k: z3.If(k == k0, V0(), old(k))
     return Adt('Option', z3.If(old(k0) != 0, BV64(1), BV64(0)), {('Some', 0): Obj('opaque')})
 
+def m_map_clear(I, s, fr, c, a, d, de, rb):
+    m = dr(I, s, a[0]); m.d['f'] = lambda k: V0(); return unit()
+def m_opt_map_or(I, s, fr, c, a, d, de, rb):
+    """Option::map_or(default, f): run the closure from MIR when Some"""
+    o = mat(I, s, a[0]); dd = discr_of(I, s, o); dflt = mat(I, s, a[1]); clos = mat(I, s, a[2])
+    fn = I.resolve_closure(clos.ty if isinstance(clos, (Adt, Unknown)) else '')
+    if fn is None: raise Stuck('closure for Option::map_or not found')
+    out = []
+    for want in (0, 1):
+        if isinstance(dd, int):
+            if dd != want: continue
+            s2 = s
+        else:
+            if not I.feasible(s, extra=(dd == want)): continue
+            s2 = s.clone(); s2.pc.append(dd == want)
+        if want == 0: I.finish_call(s2, de, rb, dflt)
+        else: I.push_call(s2, fn, [clos, get_field(I, s2, mat(I, s2, a[0]) if s2 is s else o, 'Some', 0)], de, rb)
+        out.append(s2)
+    return States(out)
+def m_log_off(I, s, fr, c, a, d, de, rb): return z3.BoolVal(False)
+def m_log_level(I, s, fr, c, a, d, de, rb): return Adt('LevelFilter', 0, {})
+
 STD_MODELS = [
+    (R(r'^HashMap::<.*>::clear$'), m_map_clear), (R(r'^std::option::Option::<.*>::map_or::<'), m_opt_map_or),
+    (R(r'^<Level as PartialOrd<LevelFilter>>::le$'), m_log_off), (R(r'^(log::)?max_level$'), m_log_level),
     (R(r'^<(HashMap<.*>|Vec<.*>|std::option::Option<.*>|schema::Signed<.*>|Root|KeyHolder|Delegations|Targets|DelegatedRole|schema::Target|TargetName|std::string::String|Box<dyn .*>|Limits|DateTime<Utc>|Decoded<.*>|Value|std::path::PathBuf|Url) as Clone>::clone$'), m_clone_deep),
     (R(r'^std::option::Option::<.*>::(as_ref|as_mut)$'), m_opt_as_ref),
     (R(r'^std::option::Option::<.*>::unwrap_or_default$'), m_opt_unwrap_or_default),
